@@ -113,8 +113,27 @@ SPEC_RESERVED = ['default', 'root', 'do', 'set_delegate', 'remove_delegate', 'de
 NAME_CHARS = 'abcdefghijklmnopqrstuvwxyzABCDEFGHIJKLMNOPQRSTUVWXYZ0123456789_'
 
 
+NON_ASCII = ['é', 'ß', 'ж', 'Я', '中', '文', '€', '\U0001F600', '\u00a0', 'ñ']
+
+
+def rand_text(rng, n: int) -> str:
+    """text of n characters; a third of the texts contain characters whose UTF-8 form has 2, 3 or 4 bytes"""
+    alphabet = 'abc xyz019\n'
+    if rng.random() < 0.35:
+        return ''.join(rng.choice(NON_ASCII) if rng.random() < 0.3 else rng.choice(alphabet) for _ in range(max(n, 1)))
+    return ''.join(rng.choice(alphabet) for _ in range(n))
+
+
 def rand_entrypoint(rng) -> str:
     k = rng.random()
+    if k < 0.08:   # names with multi-byte characters: at most 31 BYTES
+        name = ''
+        while True:
+            ch = rng.choice(NON_ASCII + list('abcXYZ_09'))
+            if len((name + ch).encode()) > rng.choice([3, 8, 31, 31]):
+                break
+            name += ch
+        return name or 'é'
     if k < 0.45:
         return rng.choice(SPEC_RESERVED)
     if k < 0.6:  # near-misses of reserved names
@@ -164,7 +183,7 @@ def manager_header(rng, source=None, unset=False):
 def rand_content(rng, kind: str, source=None, unset=False) -> dict:
     """One content of the given kind.  unset=True leaves source/fee/counter/limits for fill()."""
     if kind == 'failing_noop':
-        return {'kind': kind, 'arbitrary': ''.join(rng.choice('abc xyz019\n') for _ in range(rng.choice([0, 1, 5, 40, 40, 300])))}
+        return {'kind': kind, 'arbitrary': rand_text(rng, rng.choice([0, 1, 5, 40, 40, 300]))}
     if kind == 'activate_account':
         return {'kind': kind, 'pkh': b58('tz1', rand_bytes(rng, 20)), 'secret': rand_bytes(rng, 20).hex()}
     if kind == 'endorsement':
